@@ -284,6 +284,32 @@ def check_backlog(ctx, P):
             construct="deadline computed over an unread timer backlog")
 
 
+def check_poll_yield(ctx, P):
+    yl = P.fn("fiber_manager_yield")
+    o = ctx.ob("poll.yield", yl, "fiber_manager_yield polls the event engine at a bounded interval (every 2^k-th yield of a kernel thread) when the yielding fiber is RUNNING "
+               "and polling is enabled -- and not when the fiber is on its way to sleep (it may hold the spinlock its successor releases)",
+               "the idle loop polls only when a kernel thread has nothing to run: while every thread has a fiber in a yield loop, expired sleepers and ready "
+               "descriptors are never moved to a run queue (the polling fiber waits for ever for the very fiber it starves)")
+    polls = yl.calls(("fiber_poll_events", "fiber_poll_events_blocking"))
+    nx = yl.calls("fiber_scheduler_next")
+    bad = None
+    if not polls:
+        bad = ("fiber_manager_yield never polls the event engine", yl.loc)
+    else:
+        isY = field_load("yield_count")
+        isF = lambda n: n.k == "ImplicitCastExpr" and n.ck == "LValueToRValue" and strip(n).k == "DeclRefExpr" and strip(n).name == "should_check_events"
+        isSt = field_load("state")
+        hit = [yc for yc in (1 << k for k in range(0, 21)) if reach(yl, polls, atom_from([(isY, yc), (isF, 1), (isSt, c01.RUNNING)]))]
+        if not hit:
+            bad = ("no yield count up to 2^20 makes a RUNNING fiber's yield poll", polls[0])
+        for stv in (c01.WAITING, c01.SAVING):
+            if any(reach(yl, polls, atom_from([(isY, yc), (isF, 1), (isSt, stv)])) for yc in (1 << k for k in range(0, 21))):
+                bad = bad or ("a fiber that is going to sleep (state %s) polls from its yield: it may hold the event engine's spinlock for its successor" % c01.STATE_NAME.get(stv, stv), polls[0])
+        if any(reach(yl, polls, atom_from([(isY, yc), (isF, 0), (isSt, c01.RUNNING)])) for yc in (1 << k for k in range(0, 21))):
+            bad = bad or ("the yield polls although polling is switched off (shutdown)", polls[0])
+    o.check(bad is None, "periodic poll for RUNNING fibers", bad[0] if bad else None, site=bad[1] if bad else None, construct="yield never polls")
+
+
 def check_tick(ctx, P):
     """units of the tick counter: it advances by u per timer expiration, expirations are T ms apart, sleepers add (ms + 1) and are woken by a
     strict comparison.  A sleeper registered just before a tick is woken at the k-th tick after it, k = floor((ms+1)/u) + 1, having slept
@@ -354,6 +380,7 @@ def check_early(ctx, P):
     check_backlog(ctx, P)
     check_wake_count(ctx, P)
     check_poll_idle(ctx, P)
+    check_poll_yield(ctx, P)
     fs = P.fn("fiber_sleep")
     o = ctx.ob("early.width", fs, "the deadline added to the tick counter is at least seconds*1000 + useconds/1000 + 1 for every 32-bit "
                "(seconds, useconds), computed without wrap-around, and the node's wake tick is tick counter + that value",
